@@ -198,7 +198,10 @@ func (w *fileWriter) Commit(ctx context.Context, count int64) error {
 	var b [8]byte
 	binary.LittleEndian.PutUint64(b[:], uint64(count))
 	if _, err := w.Write(b[:]); err != nil {
-		return nil
+		// Without its trailer the file is not a valid task output: do not
+		// publish it, and report the failure.
+		w.File.Discard(ctx)
+		return err
 	}
 	return closeFile(ctx, w.File)
 }
@@ -223,9 +226,11 @@ func (s *fileStore) Open(ctx context.Context, task TaskName, partition int, offs
 	}
 	r := f.Reader(ctx)
 	if n, err := r.Seek(offset, io.SeekStart); err != nil || n != offset {
+		_ = closeFile(ctx, f)
 		if err == nil {
-			return nil, errors.E(errors.Invalid, fmt.Sprintf("Seeked to %d, got %d", offset, n))
+			err = errors.E(errors.Invalid, fmt.Sprintf("Seeked to %d, got %d", offset, n))
 		}
+		return nil, err
 	}
 	return &fileIOCloser{
 		Reader: io.LimitReader(r, info.Size()-8-offset),
